@@ -1,11 +1,14 @@
 #!/bin/bash
-# Re-verify every seeded change on the CURRENT /repo HEAD and re-run its property's check against it.
-# Output: one line per change.  (Phase 1 in parallel, phase 2 serial because checks share /verif/_build.)
+# Re-verify seeded changes on the CURRENT /repo HEAD and re-run each one's property check against it.
+# usage: [VERIF_DIR=<spare worktree>] seed_campaign.sh [id ...]      (default: every seeded/C??-* directory)
+# Output: one line per change.  (Phase 1 in parallel, phase 2 serial because checks share <verif dir>/_build.)
 V=${VERIF_DIR:-/verif}; cd $V
-ls -d seeded/C??-? seeded/C??-r2 seeded/C??-r3 seeded/C??-r4? seeded/C??-r5? | sed 's#seeded/##' | while read id; do p=${id%-*}; echo "$p $V/seeded/$id $id"; done \
-  | xargs -P 5 -L 1 tools/seed_verify.sh 2>&1 | grep -v WARNING | sort > _build/seed_campaign.verify.txt
-cat _build/seed_campaign.verify.txt
-for id in $(ls -d seeded/C??-? seeded/C??-r2 seeded/C??-r3 seeded/C??-r4? seeded/C??-r5? | sed 's#seeded/##'); do
-  tools/seed_check.sh $id ${id%-*} 2>&1 | grep -v WARNING | cut -c1-200
+if [ $# -gt 0 ]; then IDS="$@"; else IDS=$(ls -d seeded/C??-? seeded/C??-r2 seeded/C??-r3 seeded/C??-r4? seeded/C??-r5? | sed 's#seeded/##'); fi
+T=$(echo $IDS | md5sum | cut -c1-6)
+for id in $IDS; do p=${id%-*}; echo "$p /verif/seeded/$id $id"; done \
+  | xargs -P 4 -L 1 /verif/tools/seed_verify.sh 2>&1 | grep -v WARNING | sort > _build/seed_campaign.verify.$T.txt
+cat _build/seed_campaign.verify.$T.txt
+for id in $IDS; do
+  /verif/tools/seed_check.sh $id ${id%-*} 2>&1 | grep -v WARNING | cut -c1-200
   git -C /repo worktree remove --force /tmp/st-$id 2>/dev/null
-done | tee _build/seed_campaign.check.txt
+done | tee _build/seed_campaign.check.$T.txt
